@@ -143,3 +143,32 @@ Proof.
   change (st_of (mkrl last_id [] [] false)) with (w_init last_id).
   destruct stop as [k|]; cbn [cutd firstn']; [now rewrite Nat.sub_0_r|reflexivity].
 Qed.
+
+(* ---- ReadLoop.read_loop is fold_fields over whatever Parser.Next hands out ---------------------------- *)
+(* [pf_run p fs err]: successive calls of Parser.Next from p return the fields fs and then false,
+   with Parser.Err() = err *)
+Inductive pf_run : parser -> list pfield -> option serr -> Prop :=
+| pf_field p f p' fs err : parser_next p = (NextField f, p') -> pf_run p' fs err -> pf_run p (f :: fs) err
+| pf_end p p' : parser_next p = (NextFalse, p') -> pf_run p [] (parser_err p').
+
+Theorem read_loop_pf p fs err : pf_run p fs err ->
+  forall fuel on_retry ignore_eof stop s d, length fs < fuel ->
+    fst (read_loop fuel on_retry ignore_eof stop p s d)
+    = (fold_fields on_retry ignore_eof stop fs err s d, EndNormal).
+Proof.
+  induction 1 as [p f p' fs err Hn Hr IH|p p' Hn]; intros fuel on_retry ignore_eof stop s d Hf.
+  - destruct fuel as [|fuel]; [cbn in Hf; lia|]. cbn [length] in Hf.
+    cbn [read_loop fold_fields]. rewrite Hn.
+    destruct (rl_field on_retry s f) as [s' [|n|]].
+    + apply IH. lia.
+    + specialize (IH fuel on_retry ignore_eof stop s' d ltac:(lia)).
+      destruct (read_loop fuel on_retry ignore_eof stop p' s' d) as [[ys e] p2]. cbn [fst] in *.
+      injection IH as -> ->. reflexivity.
+    + destruct (consumer_refuses stop d); [reflexivity|].
+      specialize (IH fuel on_retry ignore_eof stop (rl_cleared s') (S d) ltac:(lia)).
+      destruct (read_loop fuel on_retry ignore_eof stop p' (rl_cleared s') (S d)) as [[ys e] p2]. cbn [fst] in *.
+      injection IH as -> ->. reflexivity.
+  - destruct fuel as [|fuel]; [cbn in Hf; lia|].
+    cbn [read_loop fold_fields]. rewrite Hn.
+    destruct (rl_dirty s && _ && consumer_refuses stop d); reflexivity.
+Qed.
